@@ -18,6 +18,9 @@ import Gotree.Lemmas.C15Refuse
 import Gotree.Lemmas.C15InsertFail
 import Gotree.Lemmas.C15HeapEdits
 import Gotree.Lemmas.C15Derived
+import Gotree.Lemmas.C15Cmd
+import Gotree.Gen.C15Guards
+import Gotree.Model.C15Guards
 
 namespace Gotree.C15
 open Gotree Gotree.C14
@@ -634,5 +637,112 @@ example : okTips (graft true witnessF37 "b" exXY) = ["a", "x", "y", "c", "d"] :=
 example : okTips (merge true true witnessF37 exXY) = ["a", "b", "c", "d", "x", "y"] := by decide +kernel
 example : (subTree witnessF37 [1, 0]).map T.tipNames = some ["c", "d"] ∧
     (nodeAt witnessF37 [1, 0]).map (fun n => leavesL n.kids) = some ["c", "d"] := by decide +kernel
+
+/-! ## the commands on their whole input (round 7): group file as text, the states of `-g`, several trees -/
+
+/-- the group file format is faithful: groups of clean names (no ",", no end-of-line character), none of
+    them empty, written one per line are read back by the model of `readIdenticalGroupFile` as they were -/
+theorem readGroupFile_render (gs : List (List String)) (hne : ∀ g ∈ gs, g ≠ [])
+    (hc : ∀ g ∈ gs, ∀ n ∈ g, cleanName n = true) : readGroupFile (renderGroups gs) = gs :=
+  readGroupFile_render' gs hne hc
+
+/-- the other spellings of the same file (CRLF, no final newline), the blank line that becomes the group
+    `[""]` (refused later: "" is no tip), the empty file, a line with a single name -/
+theorem readGroupFile_variants :
+    readGroupFile "a,b\r\nc,d\r\n" = [["a", "b"], ["c", "d"]] ∧
+    readGroupFile "a,b\nc,d" = [["a", "b"], ["c", "d"]] ∧
+    readGroupFile "a,b\n\n" = [["a", "b"], [""]] ∧
+    readGroupFile "" = [] ∧ readGroupFile "a\n" = [["a"]] ∧
+    readGroupFile "a,b\r" = [["a", "b\r"]] := by decide +kernel
+
+/-- `-g` not given: error exit, nothing printed -/
+theorem cliRepopulateFile_absent (ts : List T) : cliRepopulateFile .absent ts = ([], false) := rfl
+
+/-- the trees printed are a prefix of the input; exit 0 exactly when every tree was printed … -/
+theorem cliRepopulateFile_prefix (ga : GroupArg) (ts : List T) :
+    (cliRepopulateFile ga ts).1.length ≤ ts.length ∧
+    ((cliRepopulateFile ga ts).2 = true → (cliRepopulateFile ga ts).1.length = ts.length) := by
+  unfold cliRepopulateFile
+  cases groupsOf ga with
+  | none => simp
+  | some gs => exact repopulateLoop_length gs ts
+
+/-- … and then EVERY tree of the input (not only the first) got exactly the requested tips, at distance 0
+    from their models, with all other path lengths unchanged (`insertOK`, the Spec used as oracle) -/
+theorem cliRepopulateFile_ok (txt : String) (ts outs : List T)
+    (h : cliRepopulateFile (.file txt) ts = (outs, true))
+    (hu : ∀ t ∈ ts, t.tipNames.Nodup) (hne : ∀ g ∈ readGroupFile txt, "" ∉ g) :
+    outs.length = ts.length ∧ ∀ p ∈ ts.zip outs, insertOK p.1 (readGroupFile txt) p.2 = true := by
+  obtain ⟨hl, hz⟩ := repopulateLoop_ok (readGroupFile txt) ts outs h
+  refine ⟨hl, fun p hp => ?_⟩
+  exact insertOK_holds p.1 p.2 _ (hz p hp) (hu p.1 (List.of_mem_zip hp).1) hne
+
+/-- cmd/repopulate.go:57–59 overwrites the error of `readIdenticalGroupFile`: with a group file that cannot
+    be opened every tree (unique tip names, no two named nodes with the same label) is printed UNCHANGED
+    and the exit status is 0 — a command-line matter outside the property, stated, tied, not judged -/
+theorem cliRepopulateFile_missing_silent (ts : List T) (hu : ∀ t ∈ ts, t.tipNames.Nodup)
+    (hl : ∀ t ∈ ts, hasDup (t.nodeNames.filter (· != "")) = false) :
+    cliRepopulateFile .missing ts = (ts, true) := by
+  show repopulateLoop [] ts = (ts, true)
+  induction ts with
+  | nil => rfl
+  | cons t r ih =>
+    have h1 : (tipIndex t).2 = true := by rw [tipIndex_unique t (hu t (by simp))]
+    have h2 : insertIdentical true t [] = (t, none) := by
+      unfold insertIdentical
+      simp [hl t (by simp), insertGroups]
+    unfold repopulateLoop
+    simp only [h1, Bool.not_true, Bool.false_eq_true, if_false, h2]
+    rw [ih (fun t ht => hu t (List.mem_cons_of_mem _ ht)) (fun t ht => hl t (List.mem_cons_of_mem _ ht))]
+
+/-- `gotree collapse single` on several trees: one tree printed per input tree, each meeting the Spec -/
+theorem cliCollapseSingleAll_spec (ts : List T) (h : ∀ t ∈ ts, lengthsOK t = true) :
+    (cliCollapseSingleAll ts).length = ts.length ∧
+    ∀ p ∈ ts.zip (cliCollapseSingleAll ts), removeSingleOK p.1 p.2 = true := by
+  refine ⟨by simp [cliCollapseSingleAll], ?_⟩
+  induction ts with
+  | nil => simp [cliCollapseSingleAll]
+  | cons t r ih =>
+    intro p hp
+    simp only [cliCollapseSingleAll, List.map_cons, List.zip_cons_cons, List.mem_cons] at hp
+    rcases hp with rfl | hp
+    · exact removeSingleOK_holds t (h t (by simp))
+    · exact ih (fun t ht => h t (List.mem_cons_of_mem _ ht)) p hp
+
+/-- `gotree subtree` on several trees prints at most one tree per input tree, each the subtree of a node of
+    some input tree with that name -/
+theorem cliSubtreeAll_length (ts : List T) (name : String) : (cliSubtreeAll ts name).length ≤ ts.length := by
+  unfold cliSubtreeAll
+  exact List.length_filterMap_le _ _
+
+/-- completeness on the whole input: groups acceptable for EVERY tree of the input (unique tip names, no
+    two named nodes with the same label — the region outside F79) are accepted: exit 0, so by
+    `cliRepopulateFile_prefix` / `cliRepopulateFile_ok` every tree is printed with the requested tips -/
+theorem cliRepopulateFile_accepts (txt : String) (ts : List T) (hu : ∀ t ∈ ts, t.tipNames.Nodup)
+    (hl : ∀ t ∈ ts, hasDup (t.nodeNames.filter (· != "")) = false)
+    (ha : ∀ t ∈ ts, groupsAcceptable t (readGroupFile txt) = true) :
+    (cliRepopulateFile (.file txt) ts).2 = true := by
+  show (repopulateLoop (readGroupFile txt) ts).2 = true
+  apply repopulateLoop_accepts
+  intro t ht
+  exact ⟨by rw [tipIndex_unique t (hu t ht)], insertIdentical_accepts_partial t _ (hl t ht) (ha t ht)⟩
+
+example : let ts := [witnessF37, witnessF37]
+    (∀ t ∈ ts, t.tipNames.Nodup) ∧ (∀ t ∈ ts, hasDup (t.nodeNames.filter (· != "")) = false) ∧
+    (∀ t ∈ ts, groupsAcceptable t (readGroupFile "c,n1,n2\r\nm,a\r\n") = true) ∧
+    (∀ g ∈ readGroupFile "c,n1,n2\r\nm,a\r\n", "" ∉ g) := by decide +kernel
+
+/-! ## table (e), round 7: sentinels and guard constants regenerated from the source -/
+
+/-- the sentinels of tree/edge.go are the ones of the model (`NIL`, `EdgeD.blank`, `zeroEdge`) -/
+theorem sentinels_check :
+    Gotree.Gen.C15.sentinels = expectedSentinels ∧ modelSentinels = expectedSentinels := by decide +kernel
+
+/-- every comparison with a constant in Rooted, Tip, Merge, InsertIdenticalTips, InsertIdenticalTip and
+    removeSingleNodesRecur, and every constant given to SetLength / math.Max there, is the one the model
+    was written from (`Model/C15Guards.lean` names the model definition behind each row).  A changed
+    operator or constant (`> 1` → `> 2`, `== 0.0` → `<= 0.0`, `Max(0, …)` → `Max(1, …)`) breaks this decision;
+    the failing input is then searched by the oracle as usual. -/
+theorem guards_check : Gotree.Gen.C15.guards = expectedGuards := by decide +kernel
 
 end Gotree.C15
